@@ -355,6 +355,8 @@ class _FnRun:
         n = len(t.elts)
         if (c == NP and n == 3) or (c == PD and n == 2):
             return [_fs(("dim", DIMKIND[c][i])) for i in range(n)]
+        if c == ("rows",) and n == 2:
+            return [_fs(("dim", "instances")), None]
         return None
 
     def loc(self, node):
@@ -459,7 +461,10 @@ class _FnRun:
             elif self.shape_unpack(t, value, env):
                 for te, d in zip(t.elts, self.shape_unpack(t, value, env)):
                     if isinstance(te, ast.Name):
-                        out[te.id] = d
+                        if d is None:
+                            out.pop(te.id, None)
+                        else:
+                            out[te.id] = d
             else:
                 for nm in _target_names(t):
                     out.pop(nm, None)
@@ -1407,8 +1412,10 @@ def run(ctx):
     ctx.floor(RULE, 252)  # 126 resolved (class, entry point) pairs x 2 input containers
     label_alignment(ctx, repo)
     validators(ctx, repo, an)
+    refresh_guards(ctx, repo, an)
     ctx.floor("R4", 30)
-    ctx.floor("R5", 2)
+    ctx.floor("R5", 4)
+    ctx.floor("R6", 31)
 
 
 
@@ -1724,6 +1731,26 @@ def validators(ctx, repo, an):
             if a != b:
                 diff.append((p, sorted(a ^ b)))
         loc = ctx.loc(mod, fn)
+        # X itself: a rebinding that only one container reaches must be one of the two container conversions
+        conv = {id(repo.func("sktime/utils/data_processing.py", "from_3d_numpy_to_nested")),
+                id(repo.func("sktime/utils/data_processing.py", "from_nested_to_3d_numpy"))}
+        xa, xb = sums[NP].reach_assign.get("X", set()), sums[PD].reach_assign.get("X", set())
+        bad_x = []
+        for pos in sorted(xa ^ xb):
+            st = next((n for n in astq.walk_no_nested(fn) if isinstance(n, ast.Assign) and (n.lineno, n.col_offset) == pos), None)
+            v = st.value if st is not None else None
+            sym = repo.resolve_expr(mod, v.func) if isinstance(v, ast.Call) else None
+            if not (sym is not None and sym.kind == "func" and id(sym.target) in conv):
+                bad_x.append((pos, v))
+        if bad_x:
+            pos, v = bad_x[0]
+            ctx.violation("R5", "%s:X" % fname, "X is rebound to %s only when it is a %s: the data of one container is rearranged "
+                          "while the other container holding the same data is left as it is (only the two container conversions "
+                          "may be container-specific)" % (astq.canon(v)[:60] if v is not None else "?",
+                                                          "3-d array" if pos in xa else "nested DataFrame"),
+                          "%s:%s" % (mod.relpath, pos[0]), witness={"input": "array of shape (n, 3, 2) vs. the nested frame of the same data"})
+        else:
+            ctx.ok("R5", "%s:X" % fname, "container-specific rebindings of X are the container conversions only", loc)
         if diff:
             p, lines = diff[0]
             ctx.violation("R5", "%s:%s" % (fname, p), "argument %s is rebound at line %s only when X is a %s: the validator treats %s "
@@ -1734,3 +1761,58 @@ def validators(ctx, repo, an):
         else:
             ctx.ok("R5", "%s:arguments" % fname, "arguments other than X (%s) are rebound by the same statements for both containers"
                    % ", ".join(others), loc)
+
+
+
+# -------------------------------------------------------------------------------------------------- R6 (H1)
+def _mentions_own_attr(test, attr):
+    for x in ast.walk(test):
+        if astq.is_self_attr(x, "self", attr):
+            return True
+        if isinstance(x, ast.Call) and isinstance(x.func, ast.Name) and x.func.id in ("getattr", "hasattr") and len(x.args) >= 2 \
+                and isinstance(x.args[0], ast.Name) and x.args[0].id == "self" and isinstance(x.args[1], ast.Constant) \
+                and x.args[1].value == attr:
+            return True
+    return False
+
+
+def refresh_guards(ctx, repo, an):
+    """R6: state that a method of an anchored estimator establishes on self is re-established on every call: a store
+    `self.a = ...` that only happens when a test of the attribute's *own previous value* (is None / hasattr / getattr /
+    length unchanged) succeeds keeps the value of an earlier call when the object is used again on other data."""
+    for cls in anchored_classes(repo):
+        for mname, fn in sorted(cls.methods.items()):
+            if mname == "__init__" or mname in cls.properties:
+                continue
+            stores = [(a, st) for a, v, st in astq.self_attr_stores(fn) if isinstance(st, ast.Assign)]
+            if not stores:
+                continue
+            g = an.flow.cfg(fn)
+            bad = []
+            guarded = 0
+            for attr, st in stores:
+                nd = g.node_of(st)
+                if nd is None:
+                    continue
+                guards = g.guards_of(nd)
+                if guards:
+                    guarded += 1
+                for test, branch in guards:
+                    if _mentions_own_attr(test, attr):
+                        # the tested value is of an earlier call only if this call has not (re)assigned it before the test
+                        tn = g.node_of(test)
+                        IN, _ = g.forward_must(lambda n0: isinstance(n0.stmt, ast.Assign) and n0.stmt is not st and any(
+                            astq.is_self_attr(t, "self", attr) for t in n0.stmt.targets))
+                        if tn is not None and IN.get(tn.id, False):
+                            continue
+                        bad.append((attr, st, test))
+            construct = "%s.%s" % (cls.name, mname)
+            if bad:
+                for attr, st, test in bad:
+                    ctx.violation("R6", "%s:self.%s" % (construct, attr), "self.%s is only stored when `%s` allows it, a test of its own "
+                                  "previous value: on a second call (same object, other data) the value established by the first "
+                                  "call is kept" % (attr, astq.canon(test)[:70]), ctx.loc(cls.module, st),
+                                  witness={"history": "call %s twice with different data (same number of instances)" % mname})
+            else:
+                ctx.ok("R6", construct, "%d stores on self (%d under a guard), none guarded by the attribute's own previous value" % (
+                    len(stores), guarded), ctx.loc(cls.module, fn), nontrivial=guarded > 0)
